@@ -614,23 +614,39 @@ int fcntl(int fd, int cmd, ...) {
   long val = va_arg(args, long);
   va_end(args);
 
-  if (!thread_locked) {
-    // descriptors outside the table (negative, or >= the limit the table was
-    // sized for) are left to the real fcntl, which reports the error
-    if (cmd == F_SETFL && (val == O_NONBLOCK || val == O_NDELAY) && fd_info &&
-        fd >= 0 && (rlim_t)fd < max_fd) {
-      atomic_fetch_and(&fd_info[fd].flags_, ~IO_FLAG_BLOCKING);
-      assert(!(fd_info[fd].flags_ & IO_FLAG_BLOCKING));
-      return 0;
-    }
-    // make sure O_NONBLOCK stays set
-    if (cmd == F_SETFL) {
-      val |= O_NONBLOCK;
-    }
-  }
-
   if (!fibershim_fcntl) {
     fibershim_fcntl = (fcntlFnType)dlsym(RTLD_NEXT, "fcntl");
+  }
+
+  // descriptors outside the table (negative, or >= the limit the table was
+  // sized for) are left to the real fcntl, which reports the error
+  if (!thread_locked && fd_info && fd >= 0 && (rlim_t)fd < max_fd) {
+    if (cmd == F_SETFL) {
+      // the descriptor itself always stays non-blocking. whether the caller
+      // asked for O_NONBLOCK only decides if the shims wait for readiness.
+      // the real call goes first: it validates the descriptor
+      const int ret = fibershim_fcntl(fd, cmd, val | O_NONBLOCK);
+      if (ret == 0) {
+        if (val & O_NONBLOCK) {
+          atomic_fetch_and(&fd_info[fd].flags_, ~IO_FLAG_BLOCKING);
+        } else {
+          atomic_fetch_or(&fd_info[fd].flags_, IO_FLAG_BLOCKING);
+        }
+      }
+      return ret;
+    }
+    if (cmd == F_GETFL && (fd_info[fd].flags_ & IO_FLAG_WAITABLE)) {
+      // report the mode the caller selected, not the one used underneath
+      int ret = fibershim_fcntl(fd, cmd, val);
+      if (ret >= 0) {
+        if (fd_info[fd].flags_ & IO_FLAG_BLOCKING) {
+          ret &= ~O_NONBLOCK;
+        } else {
+          ret |= O_NONBLOCK;
+        }
+      }
+      return ret;
+    }
   }
 
   return fibershim_fcntl(fd, cmd, val);
@@ -642,6 +658,10 @@ int ioctl(IOCTLPARAMS) {
   void* val = va_arg(args, void*);
   va_end(args);
 
+  if (!fibershim_ioctl) {
+    fibershim_ioctl = (ioctlFnType)dlsym(RTLD_NEXT, "ioctl");
+  }
+
   if (!thread_locked && request == FIONBIO) {
     if (!val) {
       errno = EINVAL;
@@ -649,23 +669,20 @@ int ioctl(IOCTLPARAMS) {
     }
     if (!fd_info || d < 0 || (rlim_t)d >= max_fd) {
       // not a descriptor we keep state for: the real ioctl reports the error
-      if (!fibershim_ioctl) {
-        fibershim_ioctl = (ioctlFnType)dlsym(RTLD_NEXT, "ioctl");
-      }
       return fibershim_ioctl(d, request, val);
     }
-    if (*(int*)val) {
-      atomic_fetch_and(&fd_info[d].flags_, ~IO_FLAG_BLOCKING);
-      assert(!(fd_info[d].flags_ & IO_FLAG_BLOCKING));
-    } else {
-      atomic_fetch_or(&fd_info[d].flags_, IO_FLAG_BLOCKING);
-      assert(fd_info[d].flags_ & IO_FLAG_BLOCKING);
+    // as in fcntl(): the descriptor stays non-blocking underneath, and the real
+    // call validates it before the requested mode is recorded
+    int on = 1;
+    const int ret = fibershim_ioctl(d, request, &on);
+    if (ret == 0) {
+      if (*(int*)val) {
+        atomic_fetch_and(&fd_info[d].flags_, ~IO_FLAG_BLOCKING);
+      } else {
+        atomic_fetch_or(&fd_info[d].flags_, IO_FLAG_BLOCKING);
+      }
     }
-    return 0;
-  }
-
-  if (!fibershim_ioctl) {
-    fibershim_ioctl = (ioctlFnType)dlsym(RTLD_NEXT, "ioctl");
+    return ret;
   }
 
   return fibershim_ioctl(d, request, val);
